@@ -408,6 +408,12 @@ class Spec:
                 return cls(self, x.t, x.ty, self.new_heap)
         return x
 
+    def loop_done(self, ordinal):
+        """the sequence loop `ordinal` of the function under verification has iterated to exhaustion on this path (None: the path
+        returned without completing that loop) - together with the iteration contract: every element got its iteration"""
+        it = self.ctx.ghost.get("loops_done", {}).get(ordinal)
+        return None if it is None else it.t
+
     def unchanged(self, obj, *fields):
         return z3.And(*[z3.Select(self.ctx.rd(self.new_heap, f), obj.id) == z3.Select(self.ctx.rd(self.old_heap, f), obj.id) for f in fields])
 
